@@ -40,6 +40,9 @@ func (g *G) genAolMsg() (sdk.Msg, string) {
 		kind = "create"
 	}
 	owner := g.intn("owner", g.bias("aol-owners", 4))
+	if g.W.Group.Policy != "" && len(g.W.Accts) > world.NumAccounts && g.chance("group-policy-owner", g.bias("group-actor", 12)) {
+		owner = world.NumAccounts // the group policy account (32-byte address) owns topics too
+	}
 	topic := pick(g, "topic", topics)
 	// aim at an existing topic most of the time
 	if len(existing) > 0 && kind != "create" && g.chance("aim-existing", 88) {
